@@ -51,6 +51,19 @@ print('RESULT' + json.dumps(out))
 """
 
 
+FRONT = r"""
+import sys, json, warnings
+warnings.filterwarnings('ignore')
+sys.path.insert(0, %r)
+import os
+os.environ['INFOCF_LOGLEVEL'] = 'ERROR'
+from parser.Wrappers import parse_belief_base
+from inference.c_revision import c_inference_pareto_front
+vs = c_inference_pareto_front(parse_belief_base(sys.argv[1]))
+print('RESULT' + json.dumps([[int(x) for x in v] for v in vs]))
+"""
+
+
 def _exec_life(sc):
     """Run one life-cycle scenario on the real classes; returns the trace (env + events)."""
     import impl
@@ -113,6 +126,25 @@ def _exec_life(sc):
                                      weakly=(bool(sc["facts"]) if sc["extended"] is None else bool(sc["extended"])))
                         if not a["raised"]:
                             evs.append({"ev": "zop", "cond": M.cond_vec(B, A, sig), "result": a["obs"][0] == "T", "text": M.render_cond(B, A)})
+                elif k == "cop":
+                    B, A = step[2]
+                    a = impl.ask(M.make_base(sig, {i + 1: c for i, c in enumerate(sc["base"])}), M.make_queries({1: (B, A)}), "c", "rc2", False)
+                    if not a["raised"]:
+                        evs.append({"ev": "cop", "cond": M.cond_vec(B, A, sig), "result": a["obs"][0] == "T", "text": M.render_cond(B, A)})
+                elif k == "front":
+                    src = FRONT % (REPO,)
+                    text = M.render_base(sig, sc["base"])
+                    try:
+                        p = subprocess.run([sys.executable, "-W", "ignore", "-c", src, text], capture_output=True, text=True, timeout=step[2])
+                        line = [x for x in p.stdout.splitlines() if x.startswith("RESULT")]
+                        if line:
+                            vecs_ = json.loads(line[0][6:])
+                            mx = max([max(v) for v in vecs_ if v] + [0])
+                            evs.append({"ev": "front", "vectors": vecs_, "bound": max(1 << max(0, len(sc["base"]) - 1), mx) + 1})
+                        else:
+                            evs.append({"ev": "front-error", "exc": (p.stderr or "")[-300:]})
+                    except subprocess.TimeoutExpired:
+                        evs.append({"ev": "front-timeout", "exc": f"c_inference_pareto_front did not return within {step[2]} s"})
                 elif k == "save":
                     fname = f"f{len(files) + 1}.pkl"
                     mode = step[2]
@@ -280,7 +312,7 @@ def run_lifecycles(chk: Check, scen, tag):
     for r in results:
         if r["error"]:
             machinery_failure(r["error"])
-        traces.append({"env": r["env"], "events": [{k: v for k, v in e.items() if k not in ("formula", "text", "msg", "mode", "what", "fresh_process", "exc", "step")} for e in r["events"]]})
+        traces.append({"env": r["env"], "events": [{k: v for k, v in e.items() if k not in ("formula", "text", "msg", "mode", "what", "fresh_process", "step")} for e in r["events"]]})
         keep.append(r)
         chk.add_eval(len(r["events"]))
         if any(e["ev"] in ("save", "load", "rank", "frank", "accept") for e in r["events"]):
